@@ -69,6 +69,7 @@ type Thread struct {
 	rheld   []*LockState
 	named   bool
 	urgent  bool
+	suspended bool
 }
 
 type pendingOp struct {
@@ -143,6 +144,10 @@ type Sched struct {
 	stopped  bool
 	KeepSigs bool
 	OnStep   func(step int, a *Action)
+	// SuspendTimers offers, as a schedule deviation, to postpone a timer callback that has
+	// just started until the next packet delivery has been processed ("slow timer goroutine").
+	SuspendTimers   bool
+	envSinceSuspend int
 	// AtomicsArePoints makes the vatomic shim (if linked) yield at atomics.
 	AtomicsArePoints bool
 }
@@ -396,7 +401,7 @@ func (s *Sched) park(t *Thread, op *pendingOp) {
 func (s *Sched) enabledThreads() []*Thread {
 	var en []*Thread
 	for _, t := range s.threads {
-		if t.Done || t.pending == nil || t.pending.idle {
+		if t.Done || t.pending == nil || t.pending.idle || t.suspended {
 			continue
 		}
 		if t.pending.enabled == nil || t.pending.enabled() {
@@ -489,6 +494,19 @@ func (s *Sched) loop() {
 			}
 			menu = append(menu, s.threadAction(t, c))
 		}
+		if s.SuspendTimers {
+			for _, t := range en {
+				if t.Role == "timer" && t.Points == 1 {
+					tt := t
+					menu = append(menu, Action{Sig: "suspend:" + t.Name, Cat: CatSched, Run: func() {
+						s.mu.Lock()
+						tt.suspended = true
+						s.envSinceSuspend = 0
+						s.mu.Unlock()
+					}})
+				}
+			}
+		}
 		if s.env != nil {
 			for _, a := range s.env.Actions(len(en) > 0) {
 				if len(menu) == 0 {
@@ -496,6 +514,9 @@ func (s *Sched) loop() {
 				}
 				menu = append(menu, a)
 			}
+		}
+		if len(menu) == 0 && s.resumeSuspended() {
+			continue
 		}
 		if len(menu) == 0 {
 			// nothing can run now: let virtual time pass, or stop
@@ -569,6 +590,8 @@ func (s *Sched) loop() {
 		stepNo++
 		if a.th != nil {
 			s.current = a.th
+		} else if strings.HasPrefix(a.Sig, "net:") {
+			s.envSinceSuspend++
 		}
 		a.Run()
 		if stepNo >= s.maxSteps {
@@ -576,6 +599,29 @@ func (s *Sched) loop() {
 			return
 		}
 	}
+}
+
+// resumeSuspended un-suspends postponed timer callbacks once a packet delivery has been
+// processed since they were suspended, or when nothing else can ever happen.
+func (s *Sched) resumeSuspended() bool {
+	s.mu.Lock()
+	defer s.mu.Unlock()
+	any := false
+	for _, t := range s.threads {
+		if t.suspended && !t.Done {
+			any = true
+		}
+	}
+	if !any {
+		return false
+	}
+	if s.envSinceSuspend == 0 && s.env != nil && !s.env.NextWake().IsZero() {
+		return false // let time pass to the next delivery first
+	}
+	for _, t := range s.threads {
+		t.suspended = false
+	}
+	return true
 }
 
 func (s *Sched) mainDone() bool {
